@@ -554,6 +554,8 @@ func c06BFS(c *Ctx, r *c06Runner) (int, int) {
 	g, w := r.g, r.w
 	type snap struct {
 		st    refz80.State
+		cpu   z80.CPU // the real CPU value incl. any unexported field: hidden state travels along the history
+		has   bool
 		mem   *obs.Mem
 		req   *z80.Interrupt
 		abs   int
@@ -590,6 +592,7 @@ func c06BFS(c *Ctx, r *c06Runner) (int, int) {
 		for _, ac := range acts {
 			var label string
 			var b absState
+			stepped := false
 			nm := obs.NewMem(bg)
 			nm.CopyFrom(cur.mem)
 			ns := cur.st
@@ -632,7 +635,14 @@ func c06BFS(c *Ctx, r *c06Runner) (int, int) {
 				w.imem.Poke(ns.PC, ac.in.code...)
 				w.iio.Reset()
 				w.retn.n, w.reti.n = 0, 0
-				toCPU(&ns, &w.cpu)
+				if cur.has {
+					// continue with a copy of the very CPU value that executed the history so far
+					w.cpu = cur.cpu
+					w.cpu.Memory, w.cpu.IO = w.imem, w.iio
+					w.cpu.RETNHandler, w.cpu.RETIHandler = &w.retn, &w.reti
+				} else {
+					toCPU(&ns, &w.cpu)
+				}
 				w.cpu.Interrupt = nreq
 				var pan interface{}
 				func() {
@@ -660,6 +670,7 @@ func c06BFS(c *Ctx, r *c06Runner) (int, int) {
 				ns = got
 				nreq = w.cpu.Interrupt
 				nm.CopyFrom(w.imem)
+				stepped = true
 			}
 			trans++
 			ti, ok := g.index[b.key()]
@@ -683,7 +694,13 @@ func c06BFS(c *Ctx, r *c06Runner) (int, int) {
 			}
 			if !seen[ti] {
 				seen[ti] = true
-				front = append(front, &snap{st: ns, mem: nm, req: nreq, abs: ti, path: path})
+				nsn := &snap{st: ns, mem: nm, req: nreq, abs: ti, path: path}
+				if stepped {
+					nsn.cpu, nsn.has = w.cpu, true
+				} else {
+					nsn.cpu, nsn.has = cur.cpu, cur.has
+				}
+				front = append(front, nsn)
 			}
 		}
 	}
